@@ -20,7 +20,7 @@ RULE = ('one case = one (dense input, constructor form, rmax); the case runs the
         '(input, rmax, rank-decision sequence); non-trivial = a decision sequence that truncated at least one bond')
 ASSUMPTIONS = ['exact unfolding ranks are determined by the checker\'s own SVD and only used when the spectrum has a gap >= 1e6',
                'float32 inputs: walk starts at eps=1e-6']
-FAMS = ['lowrank', 'lowrank_int', 'gauss', 'decay', 'flat', 'flat2', 'saturating', 'zero']
+FAMS = ['lowrank', 'lowrank_int', 'gauss', 'decay', 'decay_tiny', 'decay_huge', 'flat', 'flat2', 'saturating', 'zero']
 CR = 1e3
 
 
@@ -48,11 +48,11 @@ def cases(tier, seed):
             if fam in ('flat', 'flat2', 'saturating') and int(np.prod(N)) < 4:
                 continue
             for dt in ('f64', 'c128', 'f32'):
-                if dt != 'f64' and (fam in ('lowrank_int', 'flat2') or (tier == 'quick' and d > 3 and max(N) < 10)):
+                if dt != 'f64' and (fam in ('lowrank_int', 'flat2', 'decay_huge') or (tier == 'quick' and d > 3 and max(N) < 10)):
                     continue
                 for src, shp in (('torch', 'none'), ('numpy', 'none'), ('torch', 'list')):
-                    if (src, shp) != ('torch', 'none') and (dt != 'f64' or fam not in ('lowrank', 'decay')):
-                        continue
+                    if (src, shp) != ('torch', 'none') and fam not in ('lowrank', 'decay'):
+                        continue         # numpy source and prescribed-shape form: two families, every dtype
                     for rmax in ('inf', 1, 2, 'list'):
                         if rmax != 'inf' and (d < 2 or dt == 'f32'):
                             continue
@@ -75,7 +75,7 @@ def cases(tier, seed):
                 if dt != 'f64' and fam in ('lowrank_int', 'flat2'):
                     continue
                 for src in ('torch', 'numpy'):
-                    if src == 'numpy' and (dt != 'f64' or fam != 'lowrank'):
+                    if src == 'numpy' and fam != 'lowrank':
                         continue
                     for rmax in ('inf', 1, 2):
                         if rmax != 'inf' and len(N) < 2:
@@ -163,7 +163,13 @@ def run_case(c):
     dt = c['dt']
     d = len(c['N'])
     shape = c['N'] if c['k'] == 't' else c['M'] + c['N']
-    A = values.dense_family(shape, c['fam'], dt, c['s'])
+    if c['fam'] in ('decay_tiny', 'decay_huge'):
+        # overall norm 1e-13 / 1e+13 (1e-6 / 1e+6 in single precision): every bound of the property is relative
+        big = c['fam'] == 'decay_huge'
+        f = (1e13 if big else 1e-13) if dt in ('f64', 'c128') else (1e6 if big else 1e-6)
+        A = values.dense_family(shape, 'decay', dt, c['s']) * f
+    else:
+        A = values.dense_family(shape, c['fam'], dt, c['s'])
     if c['k'] == 'm':
         uranks = unfolding_ranks(_interleave(A, c['M'], c['N']))
     else:
